@@ -81,6 +81,7 @@ PROPS = {
                     "quick": {"params": "strlen=2,members=2"},
                     "thorough": {"params": "strlen=3,members=3", "harness-timeout": 3000, "max-paths": 5000000}}],
         "cross_solver": {"run": "^VH_C08_(ints|floats|simple|time)$"},
+        "callsite_audit": "harness/c08_callsites.txt",
         "level": "model_checking",
         "bounds": {
             "primitives": "for every value kind, J = json.Encoder.P(v), C = cbor.Encoder.P(v), D = Cbor2JsonManyObjects(C); text, keys, []byte and hex with 0..2 (thorough 3) symbolic bytes must be byte-identical (a genuine differential between the two hand-written escapers); integers of every width over their full range and floats over all bit patterns must denote the same number (token arguments compared by the solver; NaN/Inf as the same strings); whole-second timestamps, IPv4/IPv6/MAC/prefix, embedded JSON, RawCBOR data URL, bool, nil, durations; slices of strings/bools/ints/uints/floats",
